@@ -141,6 +141,7 @@ def run(ctx):
         if again != sorted(sub) or np.asarray(d3.get_cg_matrix(), dtype=float).shape[0] != len(sub):
             ctx.violation(key + ":ls_list:later_use", {"second_call": again, "expected": sorted(sub)})
     ctx.part("rank", decays=n_rank, restrictions=n_restrict, rank_max_2j=rank_max)
+    _cut_part(ctx, table, quick, rng)
     ctx.cov["traces_validated_against_impl"] = len(table)
     ctx.cov["rule"] = (
         "every (2ja,2jb,2jc,pa,pb,pc,p_break,ca) with 2j<=%d is one TLC state (invariants CountMatches, FermionNumber, "
@@ -151,6 +152,78 @@ def run(ctx):
     ctx.assume("C-parity constraint only offered where s is an integer (2jb+2jc even)")
     ctx.assume("rank is a floating-point SVD rank with relative threshold 1e-9")
     ctx.assume("NHel formula is the specification's reading of the helicity-amplitude counting; TLC proves it equal to |Allowed| on the whole domain")
+
+
+def _cut_part(ctx, table, quick, rng):
+    """chains that contain a decay without any allowed (l,s) are removed by the configuration loader -- also when the
+    decay object is shared by several chains (4-body cascades) -- and every other chain is kept; the oracle for
+    'has an allowed (l,s)' is the TLC table"""
+    import contextlib
+    import io
+
+    from tf_pwa.config_loader.decay_config import DecayConfig
+
+    nonempty = {tuple(k): bool(a) for k, a, _ in table}
+
+    def ok(core, b, c):
+        return nonempty[(2 * core[0], 2 * b[0], 2 * c[0], core[1], b[1], c[1], 0, 0)]
+
+    pool = [(0, -1), (0, 1), (1, -1), (1, 1), (2, 1), (2, -1)]
+    fin = (0, -1)
+    combos = [(a, x, y, r1, r2) for a in [(0, -1), (1, -1), (1, 1)] for x in pool for y in pool for r1 in pool[:4] for r2 in pool[:4] if x != y and r1 != r2]
+    rng.shuffle(combos)
+    n_done = n_cut = 0
+    want_n = 14 if quick else 120
+    for a, x, y, r1, r2 in combos:
+        if n_done >= want_n:
+            break
+        decs = {"AXd": ok(a, x, fin), "AYd": ok(a, y, fin), "XR1c": ok(x, r1, fin), "XR2c": ok(x, r2, fin), "YR1c": ok(y, r1, fin),
+                "R1ab": ok(r1, fin, fin), "R2ab": ok(r2, fin, fin)}
+        expect = set()
+        if decs["AXd"] and decs["XR1c"] and decs["R1ab"]:
+            expect.add(("X", "R1"))
+        if decs["AXd"] and decs["XR2c"] and decs["R2ab"]:
+            expect.add(("X", "R2"))
+        if decs["AYd"] and decs["YR1c"] and decs["R1ab"]:
+            expect.add(("Y", "R1"))
+        if not expect or len(expect) == 3:
+            continue  # nothing survives (the loader has nothing to build) / nothing to cut
+        if quick and all(decs[k] for k in ("AXd", "AYd")) and n_cut * 2 < n_done:
+            pass
+        mk = lambda jp, **kw: dict({"J": jp[0], "P": jp[1]}, **kw)
+        config = {
+            "decay": {"A": [["X", "d"], ["Y", "d"]], "X": [["R1", "c"], ["R2", "c"]], "Y": [["R1", "c"]], "R1": ["a", "b"], "R2": ["a", "b"]},
+            "particle": {
+                "$top": {"A": mk(a, mass=5.0)},
+                "$finals": {n: mk(fin, mass=0.1) for n in "abcd"},
+                "X": mk(x, mass=3.0, width=0.1), "Y": mk(y, mass=3.1, width=0.1), "R1": mk(r1, mass=1.0, width=0.1), "R2": mk(r2, mass=1.1, width=0.1),
+            },
+        }
+        key = "decay_cut:A=%s:X=%s:Y=%s:R1=%s:R2=%s" % (a, x, y, r1, r2)
+        key = key.replace(" ", "")
+        try:
+            with contextlib.redirect_stdout(io.StringIO()):
+                chains = list(DecayConfig(config).get_decay(full=True))
+        except Exception as e:
+            ctx.violation(key + ":raise", {"error": repr(e)[:300], "expected_chains": sorted(expect)})
+            n_done += 1
+            continue
+        got = set()
+        empty = []
+        for ch in chains:
+            names = sorted(str(p) for p in ch.inner)
+            got.add(tuple(names))
+            for d in ch:
+                if len(d.get_ls_list()) == 0:
+                    empty.append(str(d))
+        n_done += 1
+        n_cut += 1 if len(expect) < 3 else 0
+        ctx.count(1, distinct_key=key)
+        if got != set(tuple(sorted(e)) for e in expect) or empty:
+            ctx.violation(key, {"chains_kept": sorted(got), "expected": sorted(expect), "decays_without_ls_kept": empty, "allowed_by_table": decs})
+    ctx.part("decay_cut", cards=n_done)
+    if n_done == 0:
+        raise tlc.MachineryError("no decay-cut card generated")
 
 
 def replay(ctx, path):
